@@ -90,6 +90,19 @@ def termsums(nterms, terms=TERMS_Q, ops=OPS_TERM):
     return out
 
 
+CHAIN_TERMS = ["2", "-3", "x", "4x", "x^2", "2y^3", "0.5x"]
+
+
+def same_op_groupings(nterms, terms=CHAIN_TERMS, ops=("+", "*")):
+    """every grouping of n terms joined by one operator throughout (a + (b + (c + d)), ((a * b) * c) * d, ...):
+    the chained positions the rules' classifiers look for (chained_right_deep, chained_left_right, ...)."""
+    out = []
+    for combo in itertools.product(terms, repeat=nterms):
+        for op in ops:
+            out.extend(groupings(list(combo), [op]))
+    return out
+
+
 def flat_chains(nterms, terms, ops=("+", "*")):
     """Unparenthesised chains a op b op c ... (natural association of the parser)."""
     out = []
@@ -149,6 +162,10 @@ def contexts(max_depth=2, candidates=CTX_CANDIDATES):
         holes.append(f"({CTX_OTHER} + {c})")
         holes.append(f"({c} * {CTX_OTHER})")
         holes.append(f"({c} - {CTX_OTHER})")
+    for c in candidates[:5]:
+        # three-addend chains: the moved term sits two additions below the wrapper
+        holes.append(f"(2 + {c} + {CTX_OTHER})")
+        holes.append(f"({CTX_OTHER} + (2 + {c}))")
     out = []
 
     def rec(h, d):
@@ -163,6 +180,32 @@ def contexts(max_depth=2, candidates=CTX_CANDIDATES):
             out.append(f"{side} = 3")
             out.append(f"3 = {side}")
             out.append(f"{side} = x")
+    return out
+
+
+DECIMALS = ["0.00002", "0.00001", "0.000000015", "0.002", "0.003", "123456789.125", "1234567.891", "0.1", "0.2",
+            "100000000000000000000.5", "0.30000000000000004", "4503599627370497.5"]
+BIG_INTS = ["9007199254740993", "12157665459056928801", "123456789012345678901234567890", "1152921504606846977"]
+
+
+def magnitude_texts_static():
+    """constants at the edges of the number formats (tiny / long decimals, integers beyond 2**53) in every
+    leaf position a printer treats differently.  Printed and re-parsed only - never handed to the rules
+    (factor() of a 20-digit number loops for hours, which no property forbids)."""
+    out = []
+    for d in DECIMALS + BIG_INTS:
+        out += [d, f"{d}x", f"x + {d}", f"{d} + x", f"x - {d}", f"x * {d}", f"x / {d}", f"-{d}", f"{d}x^2 + 3", f"{d} * y + x",
+                f"({d} + x)^2", f"x = {d}", f"{d}x = 3", f"x^{d}", f"sgn({d})"]
+    return out
+
+
+def magnitude_texts_fold():
+    """small expressions whose one-step rewrites (constant folding above all) CREATE extreme constants"""
+    out = []
+    for a, b in itertools.product(DECIMALS[:6], DECIMALS[:6]):
+        out += [f"{a} * {b} * x", f"{a} * {b}", f"x * ({a} / {b})", f"{a} - {b}", f"x^({a} * {b})"]
+    out += ["3^40 * x", "x * 3^40", "2^60 * x", "(2^60 + 1) * x", "2^64 * x", "10^20 * x", "10^-5 * x", "x * 10^-5", "2^-20 * x",
+            "7^30 * 7^30", "5!^12 * x", "25! * x", "(2^53 + 1) * x", "x^(2^53 + 1)", "x / 3^40", "x - 3^40 * y"]
     return out
 
 
